@@ -258,8 +258,18 @@ CHECKS.update({
    design_ref='DESIGN.md 4 (C27)'),
 })
 
+CHECKS.update({
+ 'C16': dict(
+   category='model_checking', engine='sympeg', note=TRUST,
+   technique='histories enumerated, inputs solver-quantified: after every history of loads (accepted, rejected, dangling reference, from file) and sibling-metamodel constructions, the live Arpeggio parser model of the subject metamodel is re-encoded by sympeg and z3 decides equivalence (acceptance and attribute fingerprint, all inputs of the bounded length) with the encoding of a fresh metamodel built in a separate pristine process (transported as SMT-LIB text); witness replay of accepted / rejected class strings for state the encoding cannot see',
+   text=("Solver verdict over inputs, per history: for 12 scenarios (grammars with references, keywords, regex literals, whitespace modes, comments, recursion; memoization, "
+         "ignore_case, autokwd, user classes) and every history of <= 2 / 3 operations out of 8, z3 proves that no input of length 4 (quick) / 2, 4, 6, 7 (thorough) distinguishes the "
+         "subject's live parser model from a fresh one; 8 / 30 accepted and rejected witnesses per length are then loaded by the subject and must give the model or the error "
+         "(type, message, line, column) of fresh metamodels. Reference side and histories run in processes forked from one in which no metamodel was ever built."),
+   design_ref='DESIGN.md 4 (C16)'),
+})
+
 NA = {
- 'C16': "history quantifier over whole-program API calls; no data dimension to make symbolic — only enumeration of concrete call sequences would remain (DESIGN.md 5)",
  'C17': "decided by file-system I/O, glob, abspath and repository objects handed between nested real loads; only enumeration of import graphs would remain (DESIGN.md 5)",
  'C18': "same code and obstacle as C17 crossed with fault points; enumeration of concrete runs only (DESIGN.md 5)",
  'C25': "driven by os.path manipulation and recursive metamodel_from_file over directories, lookup through dicts keyed by concrete strings; only enumeration of file trees would remain (DESIGN.md 5)",
